@@ -22,7 +22,7 @@ META = {
                     "link-mass statics: weights act at the published joint frame times the link's centre of mass; moment about each "
                     "joint axis obtained by differentiating those published positions"],
 }
-REQUIRED_CLASSES = ["theta:within_5e-4_of_a_limit"]
+REQUIRED_CLASSES = ["theta:within_5e-4_of_a_limit", "statics_inverse:cond>1e3"]
 REQUIRED_REACH = ['kinematics/arm_model.py:Arm.jacobian', 'kinematics/arm_model.py:Arm.jacobianBody', 'kinematics/arm_model.py:Arm.jacobianLink', 'kinematics/arm_model.py:Arm.jacobianEETrans', 'kinematics/arm_model.py:Arm.numericalJacobian', 'kinematics/robot_model.py:Robot.staticForces', 'kinematics/arm_model.py:Arm.staticForcesWithLinkMasses']
 REQUIRED_CLAUSES = ["space", "body", "link", "eetrans", "numerical", "velocity", "statics.power", "statics.inverse", "statics.linkmass", "statics.body", "velocity.joints"]
 
@@ -282,6 +282,37 @@ def run_case(case, ctx, bm):
             want[j] += float(sum(masses[k] * (g @ dr[k - 1]) for k in range(1, n + 1)))
         sc = nrm * float(np.linalg.norm(Wv)) + float(np.sum(masses[1:])) * float(np.linalg.norm(g)) * max(1.0, nrm)
         cmp("statics.linkmass", "statics.linkmass/" + tag, tau_m, want, sc)
+    # ---- inverse statics with the arm standing far from the world origin: the space Jacobian is then badly SCALED (its linear rows
+    # grow with the distance, condition number 1e2..1e5) but of full rank all the same - torques mapped back must return the wrench.
+    # The far base is a function of the case (no random draw), the Jacobian there is Ad(newB inv(oldB)) times the one differentiated above.
+    if n >= 6:
+        cur = case["base"]
+        for op in case["prefix"]:
+            if op["op"] == "move":
+                cur = op["base"]
+        qd0 = np.asarray(case["qd"], dtype=float)
+        d = np.array([qd0[0], qd0[-1], float(np.sum(th))])
+        d = d / max(1e-9, float(np.linalg.norm(d)))
+        dist = 10.0 + 90.0 * (abs(float(np.sum(qd0))) % 1.0)
+        far = np.concatenate([d * dist, np.asarray(cur, dtype=float)[3:]])
+        D = se3.taa_to_T(far) @ se3.inv(se3.taa_to_T(cur))
+        Jfar = se3.Ad(D) @ Js_fd
+        svf = np.linalg.svd(Jfar, compute_uv=False)
+        if svf[5] >= 1e-5 * svf[0] and sv[5] >= 0.05:
+            ok = True
+            try:
+                arm.move(tm(far.copy()))
+            except Exception:
+                ok = False
+            if ok:
+                ctx.cls("statics_inverse:cond>1e3" if svf[0] / svf[5] > 1e3 else "statics_inverse:cond<=1e3")
+                tau_f = guard("statics.inverse", "statics.far_base", lambda: arm.staticForces(Wrench(Wv.reshape((6, 1)).copy()), th.copy()))
+                if tau_f is not None:
+                    tau_f = np.asarray(tau_f, dtype=float).reshape(-1)
+                    Wf = guard("statics.inverse", "statics.inverse.far_base", lambda: arm.staticForcesInv(tau_f.reshape((n, 1)).copy(), th.copy()))
+                    if Wf is not None:
+                        got = np.asarray(Wf.getData() if hasattr(Wf, "getData") else Wf, dtype=float).reshape(-1)
+                        cmp("statics.inverse", "statics.inverse.far_base/" + tag, got, Wv, float(np.linalg.norm(Wv)) * (svf[0] / svf[5]), rel=1e-6)
 
 
 def run_shard(spec, ctx):
